@@ -23,6 +23,7 @@ import tempfile
 from . import common
 from . import paired_runs as pr
 from . import c07 as shared
+from . import filepp
 from .common import enc, dec
 
 LANGS = ["c", "cpp", "py", "html"]
@@ -124,6 +125,7 @@ def dep_closure(types):
 
 def run(ctx: common.Ctx):
     info = pr.run_translator(ctx, common.REPO)
+    pr.report_source_facts(ctx, info, ["file_pp_calls_pure", "line_pp_reset_complete", "file_pp_source_matches_model", "generator_runs_file_pps_once_in_order", "no_unlisted_shared_containers"])
     drivers = ctx.prove(["C10"], exes=["tpl"])
     drv = drivers.get("tpl")
     rng = ctx.rng
@@ -231,6 +233,9 @@ def run(ctx: common.Ctx):
                     break
         ctx.count("files_sequences_with_carry_over", nfail)
 
+    # ---- (b2) file post-processors: order of post-processing, command lines, permission bits (harness/filepp.py) ------------------
+    filepp.run(ctx, drv)
+
     # ---- (c) memoisation ---------------------------------------------------------------------------------------------------------
     try:
         from nunavut.lang import LanguageContextBuilder
@@ -284,18 +289,22 @@ def run(ctx: common.Ctx):
             for oname, extra, tset in variants:
                 cfg = f"{ii}|{lang}|{oname}"
 
-                def argv_for(inp, out, extra=extra, lang=lang):
+                def argv_for(inp, out, extra=extra, lang=lang, oname=oname):
                     _, r, lks = inp
                     a = ["--experimental-languages", "-l", lang, "-O", out]
                     for lk in lks:
                         a += ["-I", lk]
+                    if oname == "pp-run-program":
+                        # the recording program (logs every command line next to the output directory, edits every file it is given)
+                        return a + filepp.cli_extra(out) + [r]
                     return a + list(extra) + [r]
 
-                def add(variant, runs, compare_run, transform_kind, prelude=None, cfg=cfg, lang=lang, extra=extra, tset=tset):
+                def add(variant, runs, compare_run, transform_kind, prelude=None, cfg=cfg, lang=lang, extra=extra, tset=tset, oname=oname):
                     name = f"j{len(jobs)}"
                     jobs.append({"name": name, "runs": runs, "hashseed": "0", "fake_time": 1.0e9, "fake_step": 0.0, "prelude": prelude})
                     meta[name] = {"cfg": cfg, "variant": variant, "compare_run": compare_run, "kind": transform_kind, "lang": lang,
-                                  "extra": list(extra), "templates": tset or "builtin", "input": iname, "runs": runs}
+                                  "extra": list(extra) if oname != "pp-run-program" else filepp.cli_extra(runs[compare_run]["out"]),
+                                  "templates": tset or "builtin", "input": iname, "runs": runs, "oname": oname}
 
                 out = lambda tag: scratch / "out" / f"{ii}_{lang}_{oname.replace('+', '_')}_{tag}"
                 me = (iname, root, lookups)
@@ -410,6 +419,11 @@ def run(ctx: common.Ctx):
             ctx.broken.append({"kind": "paired-run-worker", "job": m["cfg"] + "|" + m["variant"], "error": str(res if isinstance(res, Exception) else bres)[:600]})
             continue
         b0 = bres[0]
+        if m.get("oname") == "pp-run-program":
+            # the log of the recording program: one invocation per generated file, with that file only
+            for ri, rr in enumerate(res):
+                if not rr["error"] and (m["variant"] != "after-other-language" or ri == m["compare_run"]):
+                    filepp.check_cli_log(ctx, drv, m["lang"], m["runs"][ri]["out"], rr["files"], common.PY, label=f"{m['cfg']}|{m['variant']}|run{ri}")
         if m["variant"] == "whole":
             if b0["error"]:
                 ctx.count("base_run_error")
